@@ -21,6 +21,25 @@ late ticks and everything scheduled from them stay on even instants and never ti
 Generated cases keep monitor ticks on even instants (even intervals) and external events on odd instants, so that no
 external event ever ties with a tick (the model resolves such a tie as "tick first"; the real loop by float noise).
 
+Transport flow control and application latency (all optional; a case without them runs exactly as before):
+  case['hw'] (and ['lw'])   the transport has a write buffer with these high / low-water marks in bytes (vloop.FakeTransport
+                            `enable_write_flow`): what the peer does not read is buffered, and the transport calls the session's
+                            `pause_writing()` from inside `write()` once the buffer is above `hw`, `resume_writing()` from a loop
+                            callback once the peer has read it down to `lw` — exactly what asyncio's socket transports do.
+  'wstop' | 'wstop:<k>'     the peer stops reading (the kernel still takes k bytes, default 0)
+  'wgo'   | 'wgo:<n>'       the peer reads everything and goes on reading | reads n buffered bytes only
+      A write the transport accepts into a full buffer is still a write: C08's "outbound transmission" is the `transport.write`
+      call — the property is about the session *emitting*, not about the peer's reading.  For the model the callbacks the transport
+      made are events of their own (`wpause` / `wresume`, Model/MonitorFlow.lean, op `hbf.run`): they are taken from the run
+      (obs['flow']) and put into the history at the instants they happened.
+  'recv:msg@<d>'            a message whose application callback (on_msg_coro / on_unsequenced) AWAITS `asyncio.sleep(d units)` before it
+                            returns (d a decimal number carried in the payload; generated as x.5 so that a callback never ends at a tick)
+  'recv:burst:<n>@<d>'      n such messages in one segment (one `data_received` call; for the model one `recv msg`)
+  case['loginlat']          soup server: `on_login` awaits that many units before it accepts (time 0 stays the LoginAccepted write)
+      All inbound bytes go through `FakeTransport.feed`: they wait while the session has paused reading (`transport.pause_reading()`)
+      and are handed over when it resumes.  The stamp of a `recv:*` event is the instant the peer *wrote* the bytes (they reached
+      the socket) — that is what C09's "the peer delivers a byte" means, as for hold-ups.
+
 An *observation* (both sides, canonical) is
     {'closed': None | [t, 'mon'|'app'], 'writes': [[t, 'hb'|'app', 'live'|'dead'], ...]}      (chronological)
 Heartbeats written at the very instant the remote monitor closes the session are dropped from both sides before they
@@ -104,11 +123,15 @@ def _libs():
         from nasdaq_protocols.soup import session as soup_session
 
         class Server(soup_session.SoupServerSession):
+            login_latency = 0       # grid units `on_login` awaits (set by Rig.login before the session is built)
+
             async def on_login(self, msg):
+                if Server.login_latency:
+                    await asyncio.sleep(Server.login_latency * UNIT)
                 return soup.LoginAccepted('sess', 1)
 
             async def on_unsequenced(self, msg):
-                return None
+                await app_latency(msg.data)
 
         _cache['soup'] = soup
         _cache['soup_session'] = soup_session
@@ -139,12 +162,31 @@ def _fix_login_msg(sender, target):
     })
 
 
+def latency_of(payload):
+    """callback latency (grid units) a message asks for: its payload is a decimal number (`recv:msg@<d>`), else 0"""
+    try:
+        d = float(bytes(payload) if not isinstance(payload, str) else payload)
+    except (TypeError, ValueError):
+        return 0.0
+    return d if 0 < d < 1e6 else 0.0
+
+
+async def app_latency(payload):
+    """the application's message callback: awaits (does not block) for as long as the message asks"""
+    d = latency_of(payload)
+    if d:
+        await asyncio.sleep(d * UNIT)
+
+
 class Rig:
     """a logged-in session of one kind plus the actions a script can perform on it"""
 
-    def __init__(self, role, ci, si):
+    def __init__(self, role, ci, si, hw=None, lw=None, loginlat=0):
         self.role, self.ci, self.si = role, ci, si
+        self.loginlat = loginlat
         self.tr = LogTransport()
+        if hw is not None:
+            self.tr.enable_write_flow(high=hw, low=lw)
         self.closed_cb = []
         self.pending = b''      # rest of a frame whose first bytes were delivered as fragments
         self.t0 = None
@@ -155,8 +197,12 @@ class Rig:
         self.rejected = []      # exception names of the `sendfail` events
         self.not_rejected = []  # `sendfail` variants the library did not reject
 
-    async def _on_msg(self, _m):
-        return None
+    async def _on_msg(self, m):
+        try:
+            payload = getattr(m, 'Username', None) if self.role == 'fix' else getattr(m, 'data', None)
+        except Exception:       # noqa — a message without that field
+            payload = None
+        await app_latency(payload)
 
     async def _on_close(self):
         self.closed_cb.append(asyncio.get_running_loop().time())
@@ -168,7 +214,7 @@ class Rig:
             L = _libs()
             soup = L['soup']
             self.s = L['soup_session'].SoupClientSession(on_msg_coro=self._on_msg, on_close_coro=self._on_close, **kw)
-            self.tr.session = self.s
+            self.tr.session = self.tr.protocol = self.s
             self.s.connection_made(self.tr)
             task = asyncio.create_task(self.s.login(soup.LoginRequest('u', 'p', '', '1')))
             await turns(3)
@@ -178,11 +224,12 @@ class Rig:
         elif self.role == 'soupServer':
             L = _libs()
             soup = L['soup']
+            L['Server'].login_latency = self.loginlat
             self.s = L['Server'](**kw)
-            self.tr.session = self.s
+            self.tr.session = self.tr.protocol = self.s
             self.s.connection_made(self.tr)
             self.s.data_received(soup.LoginRequest('u', 'p', '', '1').to_bytes()[1])
-            for _ in range(40):
+            for _ in range(40 + int(self.loginlat * UNIT / (SETTLE / 10)) + 1):
                 if self.tr.log:
                     break
                 await asyncio.sleep(SETTLE / 10)
@@ -202,7 +249,7 @@ class Rig:
             self.peer_tr = ptr
             logon_bytes = ptr.writes[-1][1]
             self.s = fs.Fix44Session(on_msg_coro=self._on_msg, on_close_coro=self._on_close, **kw)
-            self.tr.session = self.s
+            self.tr.session = self.tr.protocol = self.s
             self.s.connection_made(self.tr)
             task = asyncio.create_task(self.s.login(_fix_login_msg('CLIENT', 'SERVER')))
             await turns(3)
@@ -214,15 +261,24 @@ class Rig:
         self.n0 = len(self.tr.log)
 
     # ---- frames
-    def _frame(self, kind):
+    def _frame(self, kind, lat=None):
+        """one inbound frame: a heartbeat, or a message (whose payload asks the callback for latency `lat`, a decimal string)"""
         if self.role == 'fix':
             fixm = _fix_libs()['fixm']
-            self.peer.send_msg(fixm.Heartbeat() if kind == 'hb' else fixm.Nope())
+            m = fixm.Heartbeat() if kind == 'hb' else fixm.Nope()
+            if lat is not None and kind != 'hb':
+                m.Username = lat
+            self.peer.send_msg(m)
             return self.peer_tr.writes[-1][1]
         soup = _libs()['soup']
+        payload = b'x' if lat is None else lat.encode()
         if self.role == 'soupClient':      # the peer is a server
-            return (soup.ServerHeartbeat() if kind == 'hb' else soup.SequencedData(b'x')).to_bytes()[1]
-        return (soup.ClientHeartbeat() if kind == 'hb' else soup.UnSequencedData(b'x')).to_bytes()[1]
+            return (soup.ServerHeartbeat() if kind == 'hb' else soup.SequencedData(payload)).to_bytes()[1]
+        return (soup.ClientHeartbeat() if kind == 'hb' else soup.UnSequencedData(payload)).to_bytes()[1]
+
+    def inbound(self, data):
+        """the peer writes `data`: it reaches `data_received` now, or waits while the session has paused reading"""
+        self.tr.feed(data)
 
     def app_send(self, variant):
         """one application send through the named entry point of the session API"""
@@ -305,12 +361,26 @@ class Rig:
         elif ev in ('recv:hb', 'recv:msg'):
             data = self.pending + self._frame(ev[5:])
             self.pending = b''
-            s.data_received(data)
+            self.inbound(data)
+        elif ev.startswith('recv:msg@'):
+            data = self.pending + self._frame('msg', ev[9:])
+            self.pending = b''
+            self.inbound(data)
+        elif ev.startswith('recv:burst:'):
+            n, lat = ev[11:].split('@')
+            one = None if self.role == 'fix' else self._frame('msg', lat)       # FIX frames differ (sequence number): encode each
+            data = self.pending + b''.join(one if one is not None else self._frame('msg', lat) for _ in range(int(n)))
+            self.pending = b''
+            self.inbound(data)
         elif ev == 'recv:frag':
             if not self.pending:
                 self.pending = self._frame('hb')
-            s.data_received(self.pending[:1])
+            self.inbound(self.pending[:1])
             self.pending = self.pending[1:]
+        elif ev == 'wstop' or ev.startswith('wstop:'):
+            self.tr.peer_stops_reading(int(ev[6:] or 0))
+        elif ev == 'wgo' or ev.startswith('wgo:'):
+            self.tr.peer_reads(int(ev[4:]) if ev[4:] else None)
         elif ev == 'close':
             was = s.is_closed()
             await s.close()
@@ -346,7 +416,7 @@ def grid(t, t0):
 
 
 async def _impl_case(case):
-    rig = Rig(case['role'], case['ci'], case['si'])
+    rig = Rig(case['role'], case['ci'], case['si'], hw=case.get('hw'), lw=case.get('lw'), loginlat=case.get('loginlat', 0))
     try:
         await rig.login()
         loop = asyncio.get_running_loop()
@@ -375,6 +445,13 @@ async def _impl_case(case):
             obs['offgrid'] = True
         if rig.not_rejected:
             obs['not_rejected'] = rig.not_rejected[:5]
+        if case.get('hw') is not None:
+            # the flow-control callbacks the transport made to the session, in grid units (the model takes them as events)
+            obs['flow'] = [[grid(t, rig.t0) if grid(t, rig.t0) is not None else (t - rig.t0) / UNIT,
+                            {'pause_writing': 'wpause', 'resume_writing': 'wresume'}[name]]
+                           for name, t in rig.tr.flow_log if name in ('pause_writing', 'resume_writing') and t >= rig.t0]
+        if rig.tr.pause_log:
+            obs['read_paused'] = [[kind, round((t - rig.t0) / UNIT, 2)] for kind, t in rig.tr.pause_log][:6]
         return obs
     finally:
         await rig.finish()
@@ -397,6 +474,28 @@ def impl_run(case):
             pass
 
 
+def _impl_chunk(cases):
+    return [impl_run(c) for c in cases]
+
+
+def impl_run_many(cases, jobs=None):
+    """impl_run over a list of cases, in forked worker processes (every case builds its own loop, transport and sessions; nothing is
+    shared between cases), results in order.  Falls back to the calling process if the pool cannot be used."""
+    jobs = jobs or int(os.environ.get('VERIF_JOBS', '0') or 0) or max(1, min(8, (os.cpu_count() or 2) // 2))
+    if jobs <= 1 or len(cases) < 64:
+        return [impl_run(c) for c in cases]
+    try:
+        import multiprocessing
+        _libs()                     # import the library once, before the fork
+        step = max(8, min(64, len(cases) // (jobs * 4)))
+        chunks = [cases[i:i + step] for i in range(0, len(cases), step)]
+        with multiprocessing.get_context('fork').Pool(jobs) as pool:
+            out = pool.map(_impl_chunk, chunks, chunksize=1)
+        return [o for ch in out for o in ch]
+    except Exception:       # noqa — no fork / no semaphores in this environment
+        return [impl_run(c) for c in cases]
+
+
 # ------------------------------------------------------------------ model side
 def blocks_of(case):
     """[(start, end)] of the hold-ups of a case"""
@@ -417,15 +516,41 @@ def sanitize(case):
     return dict(case, events=out, horizon=max(case['horizon'], end + 1))
 
 
+def is_flow_ev(ev):
+    return ev == 'wstop' or ev.startswith('wstop:') or ev == 'wgo' or ev.startswith('wgo:')
+
+
 def model_token(ev):
     if ev == 'sendfail' or ev.startswith('sendfail:'):
         return 'sendfailed'
     if ev == 'send' or ev.startswith('send:'):
         return 'send'
+    if ev in ('wpause', 'wresume'):
+        return ev
+    if ev.startswith('recv:msg@') or ev.startswith('recv:burst:'):
+        return ['recv', 'msg']           # one `data_received` call; how long the application's callback takes is not the session's business
     return {'sendhb': 'sendhb', 'close': 'close'}.get(ev) or ['recv', ev[5:]]
 
 
-def model_request(case):
+def model_request(case, flow=None):
+    """the request line for the model.  `flow`: the flow-control callbacks the transport made in the implementation run
+    ([[t, 'wpause'|'wresume'], ...], obs['flow']) — a case with a write buffer ('hw') goes to `hbf.run` (Model/MonitorFlow.lean) with
+    those callbacks as events, each after the script events of its instant (`pause_writing()` is called from inside a write)."""
+    if case.get('hw') is not None:
+        ev = [[t, e] for t, e in case['events'] if not is_flow_ev(e)]
+        for t, e in (flow or []):
+            if isinstance(t, int):
+                k = len([x for x in ev if x[0] <= t])
+                ev.insert(k, [t, e])
+        out, now = [], 0
+        for t, e in ev:
+            if t > now:
+                out.append(['adv', t - now])
+                now = t
+            out.append(model_token(e))
+        if case['horizon'] > now:
+            out.append(['adv', case['horizon'] - now])
+        return f"hbf.run {case['role']} {case['ci']} {case['si']} {sx(out)}"
     late = any(ev.startswith('block:') for _, ev in case['events'])
     out, now, end = [], 0, None          # end: instant at which the current hold-up ends
     def pass_to(t):
@@ -439,6 +564,8 @@ def model_request(case):
             out.append(['hold' if end is not None else 'adv', t - now])
             now = t
     for t, ev in case['events']:
+        if is_flow_ev(ev):
+            continue                     # (no write buffer configured: the transport makes no callback)
         pass_to(t)
         if ev.startswith('block:'):
             end = t + int(ev[6:])
@@ -621,6 +748,18 @@ def load_corpus(prop):
     return out
 
 
+CASE_KEYS = ('role', 'ci', 'si', 'events', 'horizon')
+OPT_KEYS = ('hw', 'lw', 'loginlat')
+
+
+def case_of(d):
+    """the case inside a corpus / replay dict"""
+    c = {k: d[k] for k in CASE_KEYS}
+    c.update({k: d[k] for k in OPT_KEYS if d.get(k) is not None})
+    return c
+
+
 def describe(case):
     ev = ' '.join(f'{t}:{e}' for t, e in case['events'][:40])
-    return f"{case['role']} ci={case['ci']} si={case['si']} H={case['horizon']} [{ev}]"
+    opt = ''.join(f' {k}={case[k]}' for k in OPT_KEYS if case.get(k) is not None)
+    return f"{case['role']} ci={case['ci']} si={case['si']}{opt} H={case['horizon']} [{ev}]"
